@@ -12,6 +12,59 @@ from . import gen
 # C14 — independence of compilation timing, call order and threads
 # --------------------------------------------------------------------------
 
+def registry_codec_case(rng, spec, kn, mode):
+    """Focus: a long-lived decoder over Annotated[root, Discriminator(field)]
+    created and used *before* the last variant of the hierarchy is defined; the
+    tag of the late variant then forces a re-walk of the registry while the
+    decoder's per-variant holders are being rebuilt.  mode 'abort': that decode
+    is the enumeration target, followed by retries; mode 'threads': it races
+    with a decode of an already known tag through the same decoder."""
+    from . import family as F
+    fam = F.Fam(spec)
+    roots = [n for n in fam.order if any(fam.tag(v) for v in fam.subclasses(n))
+             and not fam.own_cfg(n).get("discriminator") and not fam.cls(n).get("tvars")]
+    if not roots:
+        return None
+    root = rng.choice(roots)
+    leaves = [v for v in fam.subclasses(root) if not fam.subclasses(v) and fam.tag(v)
+              and not any(v in fam.field_refs(m) for m in fam.order)]
+    early = [v for v in fam.subclasses(root) if fam.tag(v) and v not in leaves[-1:]]
+    if not leaves or not early:
+        return None
+    late = leaves[-1]
+    spec = F.clone(spec)
+    for ch in spec["chunks"]:
+        ch[:] = [c for c in ch if c["name"] != late]
+    spec["chunks"] = [[c for ch in spec["chunks"] for c in ch], [fam.cls(late)]]
+    fam = F.Fam(spec)
+    d = {"field": "t", "sub": True, "sup": False, "tagger": None}
+    shape = ["ann", ["cls", root], d]
+    fmt = rng.choice(["basic", "basic", "orjson", "msgpack"])
+
+    def dec(variant, defined):
+        v = gen.gen_value(rng, fam, ["cls", variant], defined, kn=dict(kn, sub_in_base=False))
+        if v[1] != variant:
+            v = ["o", variant, []]
+        return {"k": "codec", "id": 0, "fmt": fmt, "dir": "dec", "shape": shape,
+                "inp": gen.to_input(fam, v, {"dialect": None, "tagpick": 0}, discr=d)}
+
+    d0 = fam.defined_after(1)
+    d1 = fam.defined_after(2)
+    try:
+        first = dec(rng.choice(early), d0)
+        known = dec(rng.choice(early), d1)
+        new = dec(late, d1)
+    except (gen.Unbuildable, KeyError):
+        return None
+    if mode == "abort":
+        ops = [first, {"k": "define", "chunk": 1}, new, dict(new), dict(known), dict(first)]
+        return spec, ops, 2
+    conc = {"k": "conc", "progs": [[new], [known]], "sched": gen.gen_schedule(rng),
+            "sseed": rng.getrandbits(32)}
+    ops = [first, {"k": "define", "chunk": 1}, conc, dict(new), dict(known), dict(first)]
+    return spec, ops, 2
+
+
 def gen_c14(rng, profile):
     kn = gen.gen_knobs(rng, profile)
     if profile.get("batch") in ("conc_enum", "threads") and rng.random() < 0.4:
@@ -30,6 +83,21 @@ def gen_c14(rng, profile):
     elif profile.get("batch") == "threads":
         kn["threads"] = True
     spec = gen.gen_family(rng, kn)
+    if profile.get("batch") in ("conc_enum", "abort_enum") and kn.get("deep_variants") \
+            and rng.random() < 0.5:
+        rc = registry_codec_case(rng, spec, kn,
+                                 "abort" if profile["batch"] == "abort_enum" else "threads")
+        if rc is not None:
+            spec2, ops, target = rc
+            if profile["batch"] == "abort_enum":
+                enum = {"target": target, "stride": profile.get("stride", 7),
+                        "max_execs": profile.get("enum_max_execs", 40),
+                        "offset": rng.randint(0, 10 ** 6)}
+            else:
+                enum = {"mode": "preempt", "target": target,
+                        "cap_gen": profile.get("cap_gen", 40) * 3,
+                        "cap_gstate": profile.get("cap_gstate", 60)}
+            return {"prop": "C14", "spec": spec2, "ops": ops, "opts": {"knobs": kn, "enum": enum}}
     if profile.get("batch") == "conc_enum":
         from . import family as F
         fam = F.Fam(spec)
